@@ -151,6 +151,10 @@ func (self *StreamDecoder) InputOffset() int64 {
 // Buffered returns a reader of the data remaining in the Decoder's buffer.
 // The reader is valid until the next call to Decode.
 func (self *StreamDecoder) Buffered() io.Reader {
+	/* setErr drops the buffer but keeps scanp */
+	if self.scanp >= len(self.buf) {
+		return bytes.NewReader(nil)
+	}
 	return bytes.NewReader(self.buf[self.scanp:])
 }
 
